@@ -81,6 +81,10 @@ STATE_PAIRS = [
     ('api/a67_fstring_unrepresentable.py', 'api/a66_nested_fstrings.py'),
     ('api/a67_fstring_unrepresentable.py', 'api/a66_nested_fstrings.py'),
     ('api/a30_syntax_error.py', 'api/a66_nested_fstrings.py'),
+    # a module with foldable constants first (the expression printer is used on its own), then nested f-strings
+    ('api/a13_folding.py', 'api/a74_fstring_nested_escapes.py'),
+    ('api/a43_config_mixed.py', 'api/a74_fstring_nested_escapes.py'),
+    ('api/a74_fstring_nested_escapes.py', 'api/a13_folding.py'),
 ]
 
 # modules that stress one mechanism on their own (always part of a sweep family, and preferred for its symmetric
